@@ -101,6 +101,7 @@ type Expected struct {
 	Iposts  []Posting  `json:"iposts"`
 	Kbr     bool       `json:"kbr"`
 	Zsplit  bool       `json:"zsplit"`
+	Sneg    bool       `json:"sneg"`
 }
 
 type Case struct {
